@@ -329,6 +329,8 @@ def parse (sp : Strptime) (fmt input : Bytes) (z : Tz.Zone) : Ck (Result × Ghos
       let o ← chk32 (st.offset - 1)
       pure ({ tm with sec := 59 }, o, 0)
     else pure (tm, st.offset, st.subseconds) : Ck (Tm × Int × Int))
+  -- a seconds value beyond the leap second (strptime may let 61 through) is not normalized
+  if tm.sec > 59 then return (.fail, ⟨st.ghost, st.spQueries⟩)
   let yr ← (if !st.sawYear then
       (if tm.year > i64max - 1900 then pure none else do let y ← chk64 (tm.year + 1900); pure (some y))
     else pure (some st.year) : Ck (Option Int))
